@@ -13,6 +13,7 @@ from concurrent.futures import ProcessPoolExecutor
 sys.path.insert(0, '/verif/sta'); sys.path.insert(0, '/verif/sweep')
 
 REPO = '/repo'
+EXPECTED_RESULT_LINES = 6      # test binaries of the crate (lib unit tests, 4 integration files) + doc tests
 
 OPS = [
     ('lr', re.compile(r'\.left\b'), '.right'), ('lr', re.compile(r'\.right\b'), '.left'),
@@ -125,7 +126,7 @@ def one(args):
                 p = subprocess.run('cargo test --offline --no-fail-fast 2>&1 | grep -E "^test result|panicked|FAILED|error" | head -20', shell=True, cwd=root, env=env, capture_output=True, text=True, timeout=600)
                 o = p.stdout
                 lines = [l for l in o.split('\n') if l.startswith('test result')]
-                res['tests'] = 'pass' if lines and all(' ok.' in l for l in lines) and 'FAILED' not in o else 'fail'
+                res['tests'] = 'pass' if len(lines) >= EXPECTED_RESULT_LINES and all(' ok.' in l for l in lines) and 'FAILED' not in o else 'fail'
             except subprocess.TimeoutExpired:
                 res['tests'] = 'timeout'
         return res
@@ -140,6 +141,7 @@ def main():
     ap.add_argument('--tests', action='store_true')
     ap.add_argument('--out', default='/verif/sweep/MUTANTS.json')
     ap.add_argument('--workers', type=int, default=14)
+    ap.add_argument('--rerun-silent', action='store_true', help='re-run the checker only on the mutants recorded as silent in --out')
     a = ap.parse_args()
     files = [f for f in a.files.split(',') if f] or source_files()
     ms = []
@@ -147,6 +149,11 @@ def main():
         ms += mutants_of(f)
     if a.limit:
         ms = ms[:a.limit]
+    prev = None
+    if a.rerun_silent:
+        prev = json.load(open(a.out))
+        keep = {r['id'] for r in prev['results'] if r['status'] == 'silent'}
+        ms = [m for m in ms if m['id'] in keep]
     print('%d mutants over %d files' % (len(ms), len(files)), flush=True)
     results = []
     with ProcessPoolExecutor(max_workers=a.workers) as ex:
@@ -154,6 +161,13 @@ def main():
             results.append(r)
             if (n + 1) % 100 == 0:
                 print('  %d done' % (n + 1), flush=True)
+    if prev is not None:
+        old = {r['id']: r for r in prev['results']}
+        for r in results:
+            if r['status'] == 'silent' and 'tests' not in r and old.get(r['id'], {}).get('tests'):
+                r['tests'] = old[r['id']]['tests']
+            old[r['id']] = r
+        results = list(old.values())
     summ = {}
     for r in results:
         k = r['status'] + ('/' + r['tests'] if r.get('tests') else '')
